@@ -3,6 +3,7 @@ package main
 import (
 	"fmt"
 	"regexp"
+	"sort"
 	"go/constant"
 	"go/token"
 	"go/types"
@@ -225,20 +226,61 @@ func (ce *cenv) objTerm(obj types.Object) (Term, bool) {
 	return Term{}, false
 }
 
-func (ce *cenv) findPackage(name string) *packages.Package {
+// findPackage resolves a package qualifier. Several imported packages can share a name (internal/util and
+// internal/runtime/util): the one that declares `member` (Go object, ghost function or ghost variable) wins.
+func (ce *cenv) findPackage(name string, member ...string) *packages.Package {
 	if ce.pkg == nil {
 		return nil
 	}
-	for _, imp := range ce.pkg.Imports {
+	declares := func(p *packages.Package) bool {
+		if len(member) == 0 || member[0] == "" {
+			return true
+		}
+		if pc := ce.fc.prog.Contracts[p.PkgPath]; pc != nil {
+			if _, ok := pc.Ghosts[member[0]]; ok {
+				return true
+			}
+			if _, ok := pc.GhostVars[member[0]]; ok {
+				return true
+			}
+		}
+		return p.Types != nil && p.Types.Scope().Lookup(member[0]) != nil
+	}
+	var first *packages.Package
+	var paths []string
+	for path := range ce.pkg.Imports {
+		paths = append(paths, path)
+	}
+	sort.Strings(paths)
+	for _, path := range paths {
+		imp := ce.pkg.Imports[path]
 		if imp.Name == name {
-			return imp
+			if declares(imp) {
+				return imp
+			}
+			if first == nil {
+				first = imp
+			}
 		}
 	}
+	if first != nil {
+		return first
+	}
 	// also allow any loaded module package by its short name (ghosts declared elsewhere)
+	paths = paths[:0]
 	for path, p := range ce.fc.prog.Pkgs {
 		if p.Name == name && strings.HasPrefix(path, modRoot) {
-			return p
+			paths = append(paths, path)
 		}
+	}
+	sort.Strings(paths)
+	for _, path := range paths {
+		if declares(ce.fc.prog.Pkgs[path]) {
+			return ce.fc.prog.Pkgs[path]
+		}
+	}
+	if len(paths) > 0 {
+		return ce.fc.prog.Pkgs[paths[0]]
 	}
 	return nil
 }
@@ -349,7 +391,7 @@ func (ce *cenv) expr(e *CExpr) Term {
 		if e.Args[0].Kind == CIdent {
 			if _, isQ := ce.lookupQ(e.Args[0].Name); !isQ {
 				if _, isName := ce.names[e.Args[0].Name]; !isName && !ce.isLocal(e.Args[0].Name) {
-					if p := ce.findPackage(e.Args[0].Name); p != nil {
+					if p := ce.findPackage(e.Args[0].Name, e.Name); p != nil {
 						sub := *ce
 						sub.pkg = p
 						sub.pkgPath = p.PkgPath
@@ -460,7 +502,9 @@ func (ce *cenv) field(x Term, name string) Term {
 	}
 	saved := fc.safe
 	fc.safe = false
+	fc.inContract++
 	ref, rt, ff := fc.selectPath(ce.st, x, x.T, index, token.NoPos, "")
+	fc.inContract--
 	fc.safe = saved
 	v := fc.readField(ce.st, ref, rt, ff)
 	if fc.qdepth == 0 && !ce.st.dead() {
@@ -630,7 +674,7 @@ func (ce *cenv) call(e *CExpr) Term {
 		pn := callee.Args[0].Name
 		if _, isQ := ce.lookupQ(pn); !isQ {
 			if _, isName := ce.names[pn]; !isName && !ce.isLocal(pn) {
-				if p := ce.findPackage(pn); p != nil {
+				if p := ce.findPackage(pn, callee.Name); p != nil {
 					if g := fc.lookupGhostFunc(p.PkgPath, callee.Name); g != nil {
 						evalArgs()
 						return ce.ghostCall(g, args)
@@ -729,7 +773,7 @@ func (ce *cenv) havocTarget(a *CExpr) {
 		ce.fail("assigns: cannot resolve %s", a.Name)
 	case CSel:
 		if a.Args[0].Kind == CIdent {
-			if p := ce.findPackage(a.Args[0].Name); p != nil && !ce.isLocal(a.Args[0].Name) {
+			if p := ce.findPackage(a.Args[0].Name, a.Name); p != nil && !ce.isLocal(a.Args[0].Name) {
 				if _, isName := ce.names[a.Args[0].Name]; !isName {
 					sub := *ce
 					sub.pkg = p
@@ -751,7 +795,9 @@ func (ce *cenv) havocTarget(a *CExpr) {
 		}
 		saved := fc.safe
 		fc.safe = false
+		fc.inContract++
 		ref, rt, ff := fc.selectPath(st, x, x.T, index, token.NoPos, "")
+		fc.inContract--
 		fc.safe = saved
 		_ = f
 		nv := fc.fresh(ff.Name(), ff.Type())
